@@ -98,10 +98,23 @@ func c18FrameDiff(a, b c18Frame) (attr, detail string) {
 }
 
 func c18TruncPlain(s string) string {
-	if len(s) > 160 {
-		return fmt.Sprintf("%s...(%d bytes)", s[:160], len(s))
+	printable := true
+	for i := 0; i < len(s) && i < 160; i++ {
+		if s[i] < 0x20 || s[i] > 0x7e {
+			printable = false
+			break
+		}
 	}
-	return s
+	switch {
+	case printable && len(s) <= 160:
+		return s
+	case printable:
+		return fmt.Sprintf("%s...(%d bytes)", s[:160], len(s))
+	case len(s) <= 64:
+		return fmt.Sprintf("%q", s)
+	default:
+		return fmt.Sprintf("%q...(%d bytes)", s[:64], len(s))
+	}
 }
 
 // ---------------------------------------------------------------------------------------------------------------
@@ -810,7 +823,7 @@ func c18Framer(c *lab.Ctx) {
 		"(PUSH_PROMISE always carries END_HEADERS: x/net has no reading for a continued one). readings: expected == x/net (else generator fault), x/net == MOSN whole, " +
 		"MOSN whole == MOSN fed in fragments (random cuts, one frame per chunk, bytewise for short streams). distinct = (class, role, " +
 		"feature set of the case, fragmenting)")
-	n := c.Pick(25000, 300000)
+	n := c.Pick(25000, 200000)
 	replay := c.ReplayCase()
 	var genFault, framesRead, chunkedRuns, metaFrames int64
 	var mu sync.Mutex
